@@ -43,6 +43,10 @@ func (u *Universe) MethodSource(need map[string]bool) (string, map[string]bool) 
 	imps := map[string]bool{}
 	var sb strings.Builder
 	for _, t := range u.decls[""] {
+		if t.Stringer {
+			imps["fmt"] = true
+			fmt.Fprintf(&sb, "func (x %s) String() string { return fmt.Sprintf(\"<%s %%d>\", len(fmt.Sprintf(\"%%#v\", x))) }\n\n", t.Name, t.Name)
+		}
 		if t.Under.K != KStruct {
 			continue
 		}
